@@ -24,6 +24,12 @@ ASSUMPTIONS_COMMON = [
 ]
 
 PROPS = {
+    'C15': dict(
+        level='other', level_text='wip', level_note='wip', technique='Verus invariant on Writer (pending block sizes)', kani=[], native=[], witness=[],
+        explanation='wip'),
+    'C01': dict(
+        level='other', level_text='wip', level_note='wip', technique='wip', kani=[], native=[], witness=[],
+        explanation='wip'),
     'C18': dict(
         level='proof',
         level_text='Unbounded deductive proof (Verus) on the real BlockWriter::insert with the documented assert! modelled as divergence: whenever insert returns, the block under construction has strictly ascending keys and its bytes are exactly the framed entries; finish() emits exactly those bytes plus the offset table. (Writer-level clauses are added as the Writer contracts are discharged.)',
